@@ -2,7 +2,7 @@
    extraction and for vm_compute cross-checks. *)
 From Coq Require Import ZArith List Bool Arith Lia.
 From Coq Require Import QArith.
-From RV Require Import Val Syntax Rho Offline Online Sat IA Pastify Jitter Units Support Lexer Parser Elab Dense DenseSem DenseMerge DenseSat Explain ExtZ.
+From RV Require Import Val Syntax Rho Offline Online Sat IA Pastify Jitter Units Support Lexer Parser Elab Dense DenseSem DenseMerge DenseEval DenseSat Explain ExtZ.
 Import ListNotations.
 
 Definition zformula := @formula ExtZVal.
@@ -73,6 +73,9 @@ Definition run_explain (ps : list zformula) (w : ztrace) (n : nat) : option (lis
 Definition run_satz (p : zformula) (W : list (list (Z * extz))) (t0 tend : Z) : list bool :=
   map (satZ ExtZArith W tend p) (zrange t0 tend).
 Definition run_dbool (p : zformula) : bool := dbool p.
+
+(* the model of the dense-time offline visitors (untimed fragment) *)
+Definition run_deval (p : zformula) (W : list (list (Z * extz))) : option (list (Z * extz)) := deval ExtZArith p W.
 
 Definition run_hor (p : zformula) : nat := hor p.
 Definition run_bounded_future (p : zformula) : bool := bounded_future p.
